@@ -257,17 +257,14 @@ func Catalogue() []Entry {
 			d := GenSDRRepoInfo().Draw(t, "repoInfo")
 			b.Data.Repo.Info = d
 			b.Data.Repo.AddTS, b.Data.Repo.EraseTS = d.AddTS, d.EraseTS
-			// the record count served is the repository's: make it this entry's own
-			b.Data.Repo.Records = make([]simbmc.Record, rapid.IntRange(0, 4).Draw(t, "records"))
-			d.Count = uint16(len(b.Data.Repo.Records))
+			// the record count served is this entry's own, independent of the
+			// records other entries install
+			cnt := d.Count
+			b.Data.Repo.CountOverride = &cnt
 			return withRemake(func() *Call {
 				c := &ipmi.GetSDRRepositoryInfoCmd{}
 				return &Call{Name: "Get SDR Repository Info", Key: key(ref.NetFnStorage, ref.CmdSDRRepoInfo), Cmd: c, WantFields: map[string]uint64{}, HasBody: true,
-					Check: func() error {
-						e := d
-						e.Count = uint16(len(b.Data.Repo.Records)) // whatever the repository holds now
-						return CmpSDRRepoInfo(&e, &c.Rsp)
-					}, Summary: func() string { return fmt.Sprintf("%+v", c.Rsp) }}
+					Check: func() error { return CmpSDRRepoInfo(&d, &c.Rsp) }, Summary: func() string { return fmt.Sprintf("%+v", c.Rsp) }}
 			})
 		}},
 		{Name: "ReserveSDRRepository", Session: true, Prepare: func(t *rapid.T, b *simbmc.BMC) *Call {
